@@ -13,5 +13,8 @@ open ColumnVerif.Skel
 theorem dict_version_matches : ColumnVerif.Generated.dictVersion = expectedDictVersion := by decide +kernel
 theorem flag_fillOpsUnderCollLock : fillOpsUnderCollLock = true := by decide +kernel
 theorem flag_insertProtocol : insertProtocol = true := by decide +kernel
+/-- the insert callback runs under the read latch of the new row's own chunk (`QueryAt`): a delete commit that has
+    released the offset but not yet cleared the columns holds the write latch of that chunk -/
+theorem flag_readInsideRLatch : readInsideRLatch = true := by decide +kernel
 
 end ColumnVerif.Props.C11skel
